@@ -234,6 +234,27 @@ def one_repo(arg):
             if r.out != base[tuple(fa)]:
                 out["viol"].append(("C17/determinism/stdout-differs-from-reference-run", {"argv": argv, "gomaxprocs": gmp, "shim": mode,
                                                                                           "first_diff": _first_diff(base[tuple(fa)], r.out)}))
+        # --- presentation settings that come from gitconfig, looked up by children that answer very late (cold cache,
+        # loaded machine): the answers are still the ones that count, so stdout is the same as with prompt children
+        if idx % 3 == 0:
+            cfgenv = {"GIT_CONFIG_COUNT": "3", "GIT_CONFIG_KEY_0": "sizer.threshold", "GIT_CONFIG_VALUE_0": "0",
+                      "GIT_CONFIG_KEY_1": "sizer.names", "GIT_CONFIG_VALUE_1": "hash",
+                      "GIT_CONFIG_KEY_2": "sizer.jsonVersion", "GIT_CONFIG_VALUE_2": "2"}
+            for fa in ([], ["--json"]):
+                rp = R.sizer(sz, work, fa + ["--no-progress"] + sel + roots, env=cfgenv, tmpdir=scratch)
+                key = ["sizer.threshold", "sizer.names", "sizer.jsonVersion"][(idx // 3 + len(fa)) % 3]
+                ldir = os.path.join(scratch, "late-%d-%d" % (idx, len(fa)))
+                lplan = R.make_plan(ldir,
+                                    [{"sig": "config --get " + key, "ord": -1, "mode": "delay", "pre_ms": 2600, "max_ms": 2800}])
+                rl = R.sizer(sz, work, fa + ["--no-progress"] + sel + roots, env=cfgenv, shimdir=shimdir, plan=lplan, tmpdir=scratch, timeout=120)
+                shutil.rmtree(ldir, ignore_errors=True)
+                out["evals"] += 2
+                out["late_config_runs"] = out.get("late_config_runs", 0) + 1
+                if rl.timed_out:
+                    out["inconc"].append("watchdog fired in a late-config run")
+                elif rp.rc != rl.rc or rp.out != rl.out:
+                    out["viol"].append(("C17/determinism/stdout-differs-when-a-config-lookup-answers-late", {"argv": fa, "late": key, "exit": [rp.rc, rl.rc],
+                                                                                                "first_diff": _first_diff(rp.out, rl.out)}))
         blocks = race_blocks(logdir)
         out["races"] = len(blocks)
         seen = set()
@@ -603,6 +624,7 @@ def run(chk, b, tier):
         for c, n in r["syscalls"].items():
             syscalls[c] = syscalls.get(c, 0) + n
         chk.bump("race_build_runs", r["race_runs"])
+        chk.bump("runs_with_late_config_lookups", r.get("late_config_runs", 0))
         chk.bump("race_reports", r["races"])
         chk.bump("strace_lines_examined", r["strace_lines"])
         if r["sample"]:
